@@ -102,6 +102,18 @@ func (res *Response) WriteString(s string) (int, error) {
 	return res.Write(data)
 }
 
+// bodyAllowed reports whether this response carries a message body on the
+// wire: not the answer to a HEAD request, and not a 1xx, 204 or 304 response.
+//
+//go:norace
+func (res *Response) bodyAllowed() bool {
+	if res.request != nil && res.request.Method == http.MethodHead {
+		return false
+	}
+	code := res.statusCode
+	return !(code >= 100 && code <= 199 || code == http.StatusNoContent || code == http.StatusNotModified)
+}
+
 // Write .
 //
 //go:norace
@@ -114,6 +126,14 @@ func (res *Response) Write(data []byte) (int, error) {
 
 	res.WriteHeader(http.StatusOK)
 	res.checkChunked()
+
+	if !res.bodyAllowed() {
+		if res.request.Method == http.MethodHead {
+			// what a GET would have got is written and dropped, as net/http does.
+			return l, nil
+		}
+		return 0, http.ErrBodyNotAllowed
+	}
 
 	res.hasBody = true
 
@@ -311,9 +331,10 @@ func (res *Response) ReadFrom(r io.Reader) (n int64, err error) {
 	if err != nil {
 		return 0, err
 	}
-	if res.chunked || cl <= 0 {
+	if res.chunked || cl <= 0 || !res.bodyAllowed() {
 		// The body has to be framed as chunks, or to be measured for the
-		// Content-Length field: it goes through Write like any other body.
+		// Content-Length field, or is not sent at all: it goes through
+		// Write like any other body.
 		return io.Copy(struct{ io.Writer }{res}, r)
 	}
 
@@ -605,6 +626,15 @@ func (res *Response) flush(conn io.Writer) error {
 
 	pdata := res.buffer
 	res.buffer = nil
+	if !res.bodyAllowed() {
+		// the head is the whole response: no terminating chunk.
+		if pdata == nil {
+			return nil
+		}
+		_, err = conn.Write(*pdata)
+		mempool.Free(pdata)
+		return err
+	}
 	if len(res.trailer) == 0 {
 		if pdata == nil {
 			pdata = mempool.Malloc(0)
